@@ -14,6 +14,11 @@ CLAIMED["C15"] = dict(
   note="Trusted: A-ENGINE, A-SMT, A-INT, A-REAL (float64 subtraction/abs/compare as exact reals: the tolerance comparison has no rounding model). Not decided: bijectivity of the greedy matching (completeness under unambiguous inputs), rotation invariance of ringSimilar as a functional spec (only safety and length are proved), symmetry of the four matching methods. interface Geom.Similar is used with a nil-*Bounds precondition on collection members.",
   design="DESIGN.md §3 C15")
 
+CLAIMED["C13"] = dict(
+  text="Deductive proof (govc) on the real simplify.go/intersection.go: simplifyCurve terminates (lexicographic measures on all four nested loops), never indexes out of range, keeps first and last vertex, returns a fresh slice no longer than the input and leaves the input untouched; every committed chord (i,j-1) and the closing chord have all skipped vertices within tol of the chord (distPS, the transcribed point-segment distance, which distPointToSegment is proved to compute) and every committed inner chord was tested by segMakesNotSimple against kept output, remaining input and the other curves; segMakesNotSimple is proved equal to its quantified spec (some non-endpoint-sharing segment with findIntersection count > 0), findIntersection's count equals its transcribed spec; the four Simplify methods keep type, member count and per-member endpoints. Real arithmetic.",
+  note="Trusted: A-ENGINE, A-SMT, A-INT, A-REAL; A-SIMPLE: 'validated chords over a simple input give a simple output' and 'fiN > 0 iff the segments meet' are geometry outside the proof (sufficient-condition obligations). Order-preserving-subsequence is not stated as a postcondition (needs a ghost index map); it is covered only through the per-chord assertions. Known finding (listed, replayed): the closing chord is not tested for intersections.",
+  design="DESIGN.md §3 C13")
+
 NA = {}
 
 def main():
